@@ -234,7 +234,8 @@ def server_session_once(requests, lt_options):
             except Exception as e:
                 rep = 'ERROR %s' % e
             lines = open(spec + '.log').read().split('\n')[:-1] if os.path.exists(spec + '.log') else []
-            calls = [json.loads(l)['argv'] for l in lines[nlog:]]
+            # how the proofreader was called AND the plain text it was given (the filter's output for this request)
+            calls = [[json.loads(l)['argv'], json.loads(l).get('plain')] for l in lines[nlog:]]
             out.append((rep, calls))
     finally:
         p.kill(); p.wait()
@@ -242,8 +243,11 @@ def server_session_once(requests, lt_options):
     return out
 
 def gen_request(rng):
-    words = ['Here is teh text.', 'Ein Fheler hier.', 'Plain words only.', 'Some $x$ maths and teh end.', '\\section{Head} body teh']
-    rq = {'language': rng.choice(['en-GB', 'de-DE']), 'text': rng.choice(words)}
+    # (texts whose plain text depends on the language of the request: "a is an umlaut in German only, the placeholders of
+    # formulas and the word for \\begin{proof} are chosen by language)
+    words = ['Here is teh text.', 'Ein Fheler hier.', 'Plain words only.', 'Some $x$ maths and teh end.', '\\section{Head} body teh',
+             'He typed "a" and teh rest.', '\\begin{proof} It is teh case. \\end{proof}', 'Formula $x$ and $y$ then teh end.']
+    rq = {'language': rng.choice(['en-GB', 'de-DE', 'ru-RU']), 'text': rng.choice(words)}
     for f, v in [('disabledRules', 'UPPERCASE_SENTENCE_START'), ('enabledRules', 'X_RULE'), ('disabledCategories', 'CAT'), ('enabledCategories', 'CAT2')]:
         if rng.random() < 0.3:
             rq[f] = v
